@@ -43,7 +43,9 @@ let run_impl ~(ops : (string * string) list) ~maxmem ~pool ~use_write ~fail_at ~
         let path = Filename.concat tmp (Printf.sprintf "so_out_%d.mtbl" (Unix.getpid ())) in
         (try Sys.remove path with _ -> ());
         let fd = Wr.c_open_rw path true in
-        let w = Wr.c_writer_init_fd fd (1, false, 0, true, 1024, false, 0, 0n) in
+        (* every second pooled case: the writer uses the SAME pool as the sorter (a worker that ran an unordered chunk job is
+           reused for an ordered block job) *)
+        let w = Wr.c_writer_init_fd fd (1, false, 0, true, 1024, false, 0, (if pool > 0 && (List.length ops + maxmem) mod 2 = 0 then p else 0n)) in
         let ok = c_sorter_write s w in
         Wr.c_writer_destroy w; Wr.c_close fd;
         let la = c_sorter_add s "late" "x" in
